@@ -382,17 +382,23 @@ pub fn transplant_mutations(base: &Base, donor: &Base, tag: &str) -> Vec<Mutatio
             }
             out.push(seg(format!("transplant-transaction-replace-{class}"), json!({"donor_transaction": k, "how": "replace-same-position", "donor": if tag.is_empty() { "unrelated log" } else { "sibling log" }}), bytes));
         }
+        // A donor transaction whose LSN range happens to continue the base log
+        // is a forged continuation (its own operator: whether it occurs depends
+        // on how the two generated logs line up).
+        let continues = base.txs.last().is_some_and(|l| l.last_lsn + 1 == dtx.first_lsn);
+        let how_append = if continues { "continuation" } else { "append" };
+        let how_insert = if continues { "continuation" } else { "insert" };
         // append
         let mut bytes = base.seg.clone();
         bytes.extend_from_slice(&dbytes);
-        out.push(seg(format!("transplant-transaction-append-{class}"), json!({"donor_transaction": k, "how": "append", "donor": if tag.is_empty() { "unrelated log" } else { "sibling log" }}), bytes));
+        out.push(seg(format!("transplant-transaction-{how_append}-{class}"), json!({"donor_transaction": k, "how": "append", "donor": if tag.is_empty() { "unrelated log" } else { "sibling log" }}), bytes));
         // insert before the last base transaction
         if let Some(last) = base.txs.last() {
             let at = base.parsed.recs[last.frames[0]].range.start;
             let mut bytes = base.seg[..at].to_vec();
             bytes.extend_from_slice(&dbytes);
             bytes.extend_from_slice(&base.seg[at..]);
-            out.push(seg(format!("transplant-transaction-insert-{class}"), json!({"donor_transaction": k, "how": "insert-before-last", "donor": if tag.is_empty() { "unrelated log" } else { "sibling log" }}), bytes));
+            out.push(seg(format!("transplant-transaction-{how_insert}-{class}"), json!({"donor_transaction": k, "how": "insert-before-last", "donor": if tag.is_empty() { "unrelated log" } else { "sibling log" }}), bytes));
         }
     }
     out
